@@ -917,6 +917,10 @@ def eval (env : Env) : Nat → Expr → Vars → St → M (Val × St)
            let (ks, st) ← evalList env n kwVals vars st
            match g, as with
            | "len", [.ref a] => callMethod env n (.ref a) "__len__" [] [] st     -- `len(obj)` is `obj.__len__()`
+           -- `isinstance(obj, C)` for an object and a class given by name: the object's class is `C`
+           -- (no subclass of the classes asked about this way — `Order`, `Cancel` — is modelled)
+           | "isinstance", [.ref a, .str c] =>
+             M.pure (.bool (.lit (match st.heap a "__class__" with | some (.str c') => c' == c | _ => false)), st)
            | _, _ =>
            match builtin g as with
            | some r => do M.pure ((← r), st)
